@@ -1009,7 +1009,7 @@ class C19(Prop):
 
 class C01(Prop):
     id = "C01"; module = "Adsb.Theorems.C01"; design_ref = "5/C01"
-    deps = []
+    deps = ["panic:"]     # the inventory of unwrap / expect / panic-family macros / indexing / narrowing casts in the two library crates
     stateful = True
     rule = ("all 32 formats x lengths 1..32 x {zeros, ones, random}; every field of every type at extreme values; structured and malformed frames: decode, "
             "render, velocity; all ordered pairs from a pool of position reports (CPR pairing); tracker histories with receivers at poles / antimeridian "
